@@ -244,7 +244,7 @@ func (s scen) run(c *hx.Ctx) *hx.ScenarioResult {
 		}
 		sched.Finish()
 	}
-	return hx.ExploreScenario(c, "C07", s.name(), sched.Options{Bound: s.bound, MaxSteps: 200000, BoundAll: true, NoEarlyClock: true}, body, s.judge)
+	return hx.ExploreScenario(c, "C07", s.name(), sched.Options{Bound: s.bound, MaxSteps: 200000, BoundAll: true, NoEarlyClock: true, HoldBack: true}, body, s.judge)
 }
 
 var timeoutText = fmt.Sprintf("Task timed out after %d.00 seconds", T)
